@@ -1591,6 +1591,17 @@ def analyse_positive(ctx, want_props):
         decls = facts.decls(cname)
         fams = {d.get("family") for d in decls}
         cr = facts.crate(cname)
+        if cname.startswith("pos_accepted"):
+            # declarations the rules call invalid but the macro accepted (each already a C09 violation on the
+            # must-fail side): only the properties that speak about *accepted* declarations are evaluated here
+            if cr is not None:
+                for d in decls:
+                    if d["kind"] == "struct" and not d.get("skip"):
+                        if "C11" in want_props:
+                            check_c11(ctx, cr, d)
+                        if "C16" in want_props:
+                            check_total(ctx, cr, d)
+            continue
         diags = facts.diags(cname)
         # accept side of C09/C10 and regime of C18: the crate compiled without errors
         for d in decls:
